@@ -169,6 +169,21 @@ theorem blt_former_foreign_errors :
     ∧ loadBlt [.toks [.nat 2, .nat 1], .toks [.nat 1, .nat 0, .nat 2, .nat 0], .toks [.nat 0]] = .error Err.parseError := by
   decide +kernel
 
+/-- **A written name or title is never taken for a comment.**  `_clean_line` starts a `#` comment at the first hash sign
+    at or after the LAST double quote of the line; the line `"<text>"` the writer produces ends with its closing quote,
+    so for every text — double quotes and hash signs in any number and order included — it comes through intact. -/
+theorem blt_written_string_uncut (text : List Char) : cleanLineL (strLine text) = strLine text :=
+  cleanLine_strLine text
+
+/-- where comments do start: after the closing quote of a string line, at the first hash of a number line; a quote
+    inside a name followed by a hash (`Ann "#1" Lee`) does not start one -/
+theorem blt_comment_start_examples :
+    cleanLine "\"Ann\" # first candidate" = "\"Ann\""
+    ∧ cleanLine "  3 1 0  # a ballot" = "3 1 0"
+    ∧ cleanLine "\"Ann \"#1\" Lee\"" = "\"Ann \"#1\" Lee\""
+    ∧ cleanLine "\"Board \"East\" seat #3\"  # title" = "\"Board \"East\" seat #3\"" := by
+  decide +kernel
+
 /-- non-vacuity: withdrawn first and last candidate, empty ballot, Decimal and integral-Fraction weights, title -/
 def exDoc : Doc Weight :=
   { nSeats := 2, cands := [("Ann", true), ("J. Smith", false), ("Cy", true)],
